@@ -650,8 +650,16 @@ class CryptographyEngine(api.CryptographicEngine):
                 padder = padding_method(algorithm.block_size).unpadder()
             else:
                 padder = padding_method(algorithm.block_size).padder()
-            plain_text = padder.update(plain_text)
-            plain_text += padder.finalize()
+            try:
+                plain_text = padder.update(plain_text)
+                plain_text += padder.finalize()
+            except Exception as e:
+                raise exceptions.CryptographicFailure(
+                    "The padding could not be {0}: {1}".format(
+                        "removed" if undo_padding else "applied",
+                        e
+                    )
+                )
         else:
             if padding_method is None:
                 raise exceptions.InvalidField(
@@ -857,23 +865,41 @@ class CryptographyEngine(api.CryptographicEngine):
                     raise exceptions.InvalidField(
                         "IV/nonce is required."
                     )
-                if is_gcm_mode:
-                    mode = mode(
-                        iv_nonce,
-                        tag=auth_tag,
-                        min_tag_length=len(auth_tag)
+                try:
+                    if is_gcm_mode:
+                        mode = mode(
+                            iv_nonce,
+                            tag=auth_tag,
+                            min_tag_length=len(auth_tag)
+                        )
+                    else:
+                        mode = mode(iv_nonce)
+                except Exception as e:
+                    raise exceptions.InvalidField(
+                        "The IV/nonce or authentication tag is not valid "
+                        "for the cipher mode: {0}".format(e)
                     )
-                else:
-                    mode = mode(iv_nonce)
             else:
                 mode = mode()
 
         # Decrypt the plain text
-        cipher = ciphers.Cipher(algorithm, mode, backend=default_backend())
-        decryptor = cipher.decryptor()
-        if auth_additional_data is not None:
-            decryptor.authenticate_additional_data(auth_additional_data)
-        plain_text = decryptor.update(cipher_text) + decryptor.finalize()
+        try:
+            cipher = ciphers.Cipher(
+                algorithm,
+                mode,
+                backend=default_backend()
+            )
+            decryptor = cipher.decryptor()
+            if auth_additional_data is not None:
+                decryptor.authenticate_additional_data(auth_additional_data)
+            plain_text = decryptor.update(cipher_text) + decryptor.finalize()
+        except Exception as e:
+            self.logger.exception(e)
+            raise exceptions.CryptographicFailure(
+                "The decryption process failed: {0}".format(
+                    e or type(e).__name__
+                )
+            )
 
         # Unpad the plain text if needed (separate methods for testing
         # purposes)
